@@ -192,6 +192,17 @@ fn decode_op_inner(r: &Rec, len: usize, kind: KindId, mix: CMix, faulty: bool) -
             1 => Op::DedupByKey(1 + v % 3),
             _ => Op::DedupBy(1 + v % 3),
         },
+        28 | 29 if matches!(mix, CMix::C07 | CMix::C08) && r.b(6) % 8 == 0 => {
+            // requests whose byte size cannot be represented: a try_ method reports them as an error
+            let n = match r.b(7) % 5 {
+                0 => usize::MAX,
+                1 => usize::MAX - len,
+                2 => usize::MAX / 16 + 2,
+                3 => isize::MAX as usize / 16 + 1 + r.b(8) as usize,
+                _ => (usize::MAX / 32 + 1) - len.min(8),
+            };
+            if sel == 28 { Op::Reserve(n, true) } else { Op::ReserveExact(n, true) }
+        }
         28 => Op::Reserve(if mix == CMix::C07 { r.b(5) as usize * 3 } else { r.b(5) as usize % 40 }, try_),
         29 => Op::ReserveExact(if mix == CMix::C07 { r.b(5) as usize * 3 } else { r.b(5) as usize % 40 }, try_),
         30 => {
@@ -528,7 +539,7 @@ impl CollEngine {
     }
 }
 
-fn probe(a: &dyn BumpAllocatorCore, up: bool) -> StatsSnap {
+fn probe<A: BumpAllocatorCore + ?Sized>(a: &A, up: bool) -> StatsSnap {
     snap_any(a.any_stats(), up)
 }
 
@@ -674,7 +685,11 @@ fn step<'b, T: Elem + Clone + PartialEq>(st: &mut St, l: &mut Live<'b, T>, op: &
     let adds = added(op, len0);
     let lying = matches!(op, Op::ExtendIter(vs, h) if h % 4 == 3 && len0 + vs.len() + 2 > cap0);
     let fixed_full = matches!(kind, KindId::Fixed) && !T::ZST && (adds.map(|a| len0 + a > cap0).unwrap_or(false) || lying) && !matches!(exp, MRes::Panic);
-    let fixed_reserve_fail = matches!(kind, KindId::Fixed) && !T::ZST && matches!(op, Op::Reserve(n, _) if len0 + n > cap0);
+    let fixed_reserve_fail = matches!(kind, KindId::Fixed) && !T::ZST && matches!(op, Op::Reserve(n, _) if len0.saturating_add(*n) > cap0);
+    let huge = matches!(op, Op::Reserve(n, _) | Op::ReserveExact(n, _) if *n > 1 << 48);
+    if huge {
+        st.class("overflow_request");
+    }
     let mut part = None;
     match real {
         Err(p) => {
@@ -693,18 +708,23 @@ fn step<'b, T: Elem + Clone + PartialEq>(st: &mut St, l: &mut Live<'b, T>, op: &
                 if now != l.m {
                     st.fail("C08/state-after-arg-panic", format!("{what}: out-of-range argument panicked but changed the contents {:?} -> {now:?}", l.m));
                 }
+            } else if is_try(op) == Some(true) && (huge || faults > 0) {
+                st.fail("C07/panic-instead-of-error", format!("{what}: a try_ method panicked ({msg}) instead of returning an error"));
             } else {
                 let id = if matches!(op, Op::SplitOff(_)) { "C16/panic-verdict" } else { "C08/panic-verdict" };
                 st.fail(id, format!("{what}: panicked ({msg}) where std does not"));
             }
         }
         Ok(res) => {
+            if huge && !T::ZST && !matches!(res, Res::AllocErr) {
+                st.fail("C07/overflow-accepted", format!("{what}: a request whose size cannot be represented returned {res:?}"));
+            }
             if faults > 0 && !matches!(res, Res::AllocErr) && is_try(op).is_some() {
                 st.fail("C07/ok-despite-failure", format!("{what}: a base-allocator call failed but the operation returned {res:?}"));
             }
             match (res, &mut exp) {
                 (Res::AllocErr, e) => {
-                    let explained = faults > 0 || fixed_full || fixed_reserve_fail || with_ctx(0, |c| c.exhausted);
+                    let explained = faults > 0 || fixed_full || fixed_reserve_fail || huge || with_ctx(0, |c| c.exhausted);
                     if !explained {
                         st.fail("C08/unexplained-error", format!("{what}: returned an allocation error without cause"));
                     }
@@ -817,7 +837,7 @@ fn step<'b, T: Elem + Clone + PartialEq>(st: &mut St, l: &mut Live<'b, T>, op: &
         st.fail("C08/zst-capacity", format!("{what}: zero-sized elements but capacity() == {cap1}"));
     }
     if let Op::Reserve(n, _) | Op::ReserveExact(n, _) = op {
-        if !fixed_reserve_fail && faults == 0 && cap1 < len0.saturating_add(*n) && !with_ctx(0, |c| c.exhausted) {
+        if !fixed_reserve_fail && !huge && faults == 0 && cap1 < len0.saturating_add(*n) && !with_ctx(0, |c| c.exhausted) {
             st.fail("C08/reserve-promise", format!("{what}: capacity {cap1} < len {len0} + reserved {n}"));
         }
     }
@@ -1246,7 +1266,7 @@ fn c15_positions(st: &mut St, info: &Info, before: &StatsSnap, after: &StatsSnap
 }
 
 /// C15: the `*_mut` allocation helpers (always finalise unless the iterator unwinds)
-fn helper_round<'a, T: Elem + Clone + PartialEq + 'a>(st: &mut St, arena: &mut (dyn MutBumpAllocatorCoreScope<'a> + 'a), info: Info, r0: &Rec) {
+fn helper_round<'a, T: Elem + Clone + PartialEq + 'a, A: MutBumpAllocatorCoreScope<'a> + bump_scope::traits::MutBumpAllocatorTyped + ?Sized>(st: &mut St, arena: &mut A, info: Info, r0: &Rec) {
     use bump_scope::traits::MutBumpAllocatorTypedScope;
     let before = probe(&*arena, info.up);
     let sel = r0.b(4) % 8;
@@ -1261,6 +1281,72 @@ fn helper_round<'a, T: Elem + Clone + PartialEq + 'a>(st: &mut St, arena: &mut (
     st.mixh(0xC15 ^ (sel as u64) << 12 ^ (n as u64) << 16 ^ (hint as u64 % 4) << 40);
     let fired_before = with_reg(|r| r.fired.is_some());
     let (what, fin): (String, Option<(usize, usize, usize)>) = match sel {
+        5 | 6 if r0.b(15) % 2 == 0 => {
+            // plain small elements: sizes that are not multiples of the minimum alignment
+            fn plain<'a, E: Copy + PartialEq + std::fmt::Debug + 'a, A: MutBumpAllocatorCoreScope<'a> + bump_scope::traits::MutBumpAllocatorTyped + ?Sized>(
+                st: &mut St,
+                arena: &mut A,
+                n: usize,
+                rev: bool,
+                try_: bool,
+                hint: u8,
+                make: fn(u32) -> E,
+            ) -> Option<(String, Option<(usize, usize, usize)>)> {
+                use bump_scope::traits::MutBumpAllocatorTypedScope;
+                let what = format!("{}alloc_iter_mut{}::<{}>({n} elements, size_hint form {})", if try_ { "try_" } else { "" }, if rev { "_rev" } else { "" }, std::any::type_name::<E>(), hint % 4);
+                st.note(|| what.clone());
+                let vals: Vec<E> = (0..n as u32).map(make).collect();
+                struct It<E>(Vec<E>, usize, u8);
+                impl<E: Copy> Iterator for It<E> {
+                    type Item = E;
+                    fn next(&mut self) -> Option<E> {
+                        let v = *self.0.get(self.1)?;
+                        self.1 += 1;
+                        Some(v)
+                    }
+                    fn size_hint(&self) -> (usize, Option<usize>) {
+                        let rem = self.0.len() - self.1;
+                        match self.2 % 4 {
+                            0 => (rem, Some(rem)),
+                            1 => (0, None),
+                            2 => (rem / 2, Some(rem * 2 + 1)),
+                            _ => (rem + 2, None),
+                        }
+                    }
+                }
+                let it = It(vals.clone(), 0, hint);
+                let b = match (rev, try_) {
+                    (false, false) => Some(arena.alloc_iter_mut(it)),
+                    (false, true) => arena.try_alloc_iter_mut(it).ok(),
+                    (true, false) => Some(arena.alloc_iter_mut_rev(it)),
+                    (true, true) => arena.try_alloc_iter_mut_rev(it).ok(),
+                };
+                let Some(b) = b else {
+                    if !with_ctx(0, |c| c.exhausted) {
+                        st.fail("C08/unexplained-error", format!("{what}: returned an allocation error without cause"));
+                    }
+                    return None;
+                };
+                let mut exp = vals;
+                if rev {
+                    exp.reverse();
+                }
+                if b[..] != exp[..] {
+                    st.fail("C15/final-contents", format!("{what}: result {:?} != {exp:?}", &b[..]));
+                }
+                Some((what, Some((b.as_ptr() as usize, b.len() * std::mem::size_of::<E>(), std::mem::align_of::<E>()))))
+            }
+            let rev = sel == 6;
+            let r = match r0.b(15) / 2 % 3 {
+                0 => plain::<u8, A>(st, arena, n, rev, try_, hint, |i| i as u8),
+                1 => plain::<u16, A>(st, arena, n, rev, try_, hint, |i| i as u16 ^ 0x5aa5),
+                _ => plain::<[u8; 3], A>(st, arena, n, rev, try_, hint, |i| [i as u8, (i >> 8) as u8, 0x33]),
+            };
+            match r {
+                Some(x) => x,
+                None => return,
+            }
+        }
         5 | 6 => {
             let rev = sel == 6;
             let vals: Vec<u32> = (0..n as u32).map(|i| if T::ZST { 0 } else { i % 7 }).collect();
@@ -1422,11 +1508,50 @@ fn helper_round<'a, T: Elem + Clone + PartialEq + 'a>(st: &mut St, arena: &mut (
     let after = probe(&*arena, info.up);
     let what2 = format!("{what} (unwound={unwound})");
     st.class("mut_helper");
-    c15_positions(st, &info, &before, &after, &what2, fin, T::ZST && matches!(sel, 5 | 6));
+    c15_positions(st, &info, &before, &after, &what2, fin, T::ZST && matches!(sel, 5 | 6) && r0.b(15) % 2 == 1);
     if unwound {
         st.class("unwound_while_filling");
     }
     check_registry(st, &what2);
+}
+
+/// C15 on concrete `BumpScope` types (10 settings: minimum alignment x direction), helper rounds only
+fn concrete_c15(st: &mut St, h: &Hdr) {
+    use bump_scope::Bump;
+    use bump_scope::settings::BumpSettings;
+    use bsv_core::talloc::{Handle, Z};
+    st.class("concrete_scope");
+    macro_rules! go {
+        ($MA:literal, $UP:literal) => {{
+            let Ok(mut b) = Bump::<Z<0>, BumpSettings<$MA, $UP>>::try_with_size_in(if h.ctor % 2 == 0 { 512 } else { 2048 }, <Z<0> as Handle>::new()) else { return };
+            let hl = talloc::header_layout::<Z<0>>();
+            let info = Info { up: $UP, min_align: $MA, ga: true, de: true, sh: true, mcs: 512, shape: "Z", header_size: hl.size(), header_align: hl.align(), full: false };
+            st.note(|| format!("concrete Bump<Z, BumpSettings<{}, {}>>", $MA, $UP));
+            let sc = b.as_mut_scope();
+            if h.prealloc > 0 {
+                let _ = sc.try_alloc_slice_fill_with::<u8>(h.prealloc, || 0xEE);
+            }
+            let mut round = 0;
+            while st.pos < st.recs.len() && !st.stop && round < 6 {
+                round += 1;
+                let r0 = Rec(st.recs[st.pos]);
+                st.pos += 1;
+                helper_round::<Tr, _>(st, sc, info, &r0);
+            }
+        }};
+    }
+    match (h.ma, h.congruence & 1 == 0) {
+        (1, true) => go!(1, true),
+        (1, false) => go!(1, false),
+        (2, true) => go!(2, true),
+        (2, false) => go!(2, false),
+        (4, true) => go!(4, true),
+        (4, false) => go!(4, false),
+        (8, true) => go!(8, true),
+        (8, false) => go!(8, false),
+        (_, true) => go!(16, true),
+        (_, false) => go!(16, false),
+    }
 }
 
 fn run_mut<'a, T: Elem + Clone + PartialEq>(st: &mut St, h: &Hdr, arena: &mut (dyn MutBumpAllocatorCoreScope<'a> + 'a), info: Info) {
@@ -1437,7 +1562,7 @@ fn run_mut<'a, T: Elem + Clone + PartialEq>(st: &mut St, h: &Hdr, arena: &mut (d
         let r0 = Rec(st.recs[st.pos]);
         st.pos += 1;
         if st.mix == CMix::C15 && r0.b(4) % 8 >= 4 && !h.plan.enabled {
-            helper_round::<T>(st, arena, info, &r0);
+            helper_round::<T, _>(st, arena, info, &r0);
             continue;
         }
         let rev = (h.first_kind as usize + round) % 2 == 1;
@@ -1577,12 +1702,18 @@ impl Engine for CollEngine {
         let cell = &cs[h.cell];
         st.note(|| format!("cell [{}] min_align {} elem {} policy {:?} panic_at {:?} (in drop: {}) plan {:?}", cell.name, h.ma, h.elem % 5, h.policy, h.panic_at, h.inject_drop, h.plan));
         let elem = h.elem % 5;
+        let concrete = self.mix == CMix::C15 && h.first_kind % 4 == 3 && !h.plan.enabled;
         let r = catch_unwind(AssertUnwindSafe(|| {
+            if concrete {
+                // the typed fast paths of the concrete scope types (the trait-object route above goes
+                // through the layout-based implementation instead)
+                return concrete_c15(&mut st, &h);
+            }
             (cell.d)(h.ma, h.ctor, &mut |arena, info| match elem {
                 0 | 1 | 2 => run_t::<Tr>(&mut st, &h, arena, info),
                 3 => run_t::<Tr32>(&mut st, &h, arena, info),
                 _ => run_t::<TrZ>(&mut st, &h, arena, info),
-            })
+            });
         }));
         if let Err(p) = r {
             // the injected panic fired outside an operation (creation, finalising, drop of an owner):
